@@ -67,7 +67,7 @@ class Pipe:
         self.start()
 
     def start(self):
-        env = dict(os.environ, VERIF_MODE='pipe', GIN_MODE='release')
+        env = dict(os.environ, VERIF_MODE='pipe', GIN_MODE='release', GORACE='halt_on_error=1')
         self.p = subprocess.Popen(['bash', '-c', 'ulimit -v %d; exec "%s"' % (self.mem_kb, self.binary)],
                                   stdin=subprocess.PIPE, stdout=subprocess.PIPE, stderr=subprocess.DEVNULL,
                                   env=env, text=True, bufsize=1)
